@@ -158,6 +158,10 @@ def all_variants():
                 for rg in ("first", "later"):
                     add("bad_value", "late", pos=pos, rg=rg)
                     add("none_nonnull", "late", pos=pos, rg=rg)
+                    # a missing value (<NA>) in a column the existing schema declares REQUIRED, for every dtype family that can hold one
+                    # (object columns: none_nonnull above; NaN in float columns is a value of the type; NaT / categoricals: notes)
+                    for fam in L.MASKED_DTYPES:
+                        add("na_nonnull", "late", pos=pos, rg=rg, family=fam)
                 add("codec_col", "late", pos=pos)
                 add("bad_dtype", "late", pos=pos)
             add("dup_col", "validation")
@@ -190,6 +194,12 @@ def all_variants():
                         add("read_ok", "ok", shape="or2", via=via, row_filter=rf)
             add("codec_all", "late")
             if st == "simple":
+                # an I/O failure at a chosen write call of a single-file append of a VALID frame (the positions a rejection cannot
+                # reach: the new footer's thrift bytes, its length, the closing magic)
+                for where in IO_POSITIONS:
+                    for var in ("pre", "short", "post"):
+                        add("io_fault", "late", where=where, fault_variant=var)
+            if st == "simple":
                 add("append_ok_pon_ignored", "ok")
                 add("overwrite_simple", "validation")
             elif st == "hive":
@@ -206,17 +216,29 @@ def all_variants():
                 add("merge_ok", "ok")
     for nrg in (1, 2):
         out.append(dict(state="drill1", nrg=nrg, kind="append_to_drill", expect="validation"))
+    # existing datasets with 11..13 part files (part ids of one AND two digits): a refused append must not touch any of them
+    for st in ("hive", "part1", "part2"):
+        for nrg in (11, 12, 13):
+            for pos in ("first", "last"):
+                for rg in ("first", "later"):
+                    out.append(dict(state=st, nrg=nrg, kind="bad_value_many_parts", expect="late", pos=pos, rg=rg))
+            out.append(dict(state=st, nrg=nrg, kind="codec_all_many_parts", expect="late"))
     return out
+
+
+IO_POSITIONS = ["first_write", "middle_write", "footer_thrift", "footer_length", "footer_magic"]
 
 
 def build(v, rng, sid):
     """variant -> scenario: existing dataset, new frame, the call."""
     st = v["state"]
     kind = v["kind"]
+    if kind.endswith("_many_parts"):
+        kind = kind[:-len("_many_parts")]
     pos = v.get("pos", rng.choice(["first", "middle", "last"]))
     target = "s" if kind == "none_nonnull" else "b"
     order = ORDERS[pos][target]
-    n0 = rng.choice([3, 5, 8]) * v["nrg"]
+    n0 = rng.choice([3, 5, 8] if v["nrg"] < 10 else [1, 2, 3]) * v["nrg"]
     frame0 = gen_frame(order, st, n0, rng)
     off0 = offsets(n0, v["nrg"])
     nrg1 = rng.choice([1, 2, 3])
@@ -328,6 +350,11 @@ def build(v, rng, sid):
         r = later_row()
         [f for f in frame1 if f[0] == "s"][0][2][r] = None
         bad_rows = [r]
+    elif kind == "na_nonnull":
+        r = later_row()
+        bad_rows = [r]
+    elif kind == "io_fault":
+        pass
     elif kind == "bad_dtype":
         # a dtype the existing column's type cannot take: complex numbers anywhere, integers in the text column
         if order[idx] == "s" and rng.random() < 0.5:
@@ -353,7 +380,25 @@ def build(v, rng, sid):
     if st != "drill1" and rng.random() < 0.3:      # the existing dataset has already been appended to once
         m = rng.choice([1, 2, 4])
         prior = {"frame": gen_frame(order, st, m, rng), "offsets": offsets(m, min(m, rng.choice([1, 2])))}
-    return {"id": sid, "variant": v, "scheme": scheme, "partition_on": list(pon), "frame0": frame0, "offsets0": off0, "prior": prior,
+    oe0 = None
+    if kind == "na_nonnull":
+        # column b of the existing dataset has the numpy counterpart of the family (REQUIRED: has_nulls=False); the appended frame
+        # carries it with the pandas extension dtype and one <NA>
+        fam = v["family"]
+        base = {"boolean": "bool", "string": "object"}.get(fam, fam.lower())
+
+        def vals(n):
+            if fam == "boolean":
+                return [rng.random() < 0.5 for _ in range(n)]
+            if fam == "string":
+                return [rng.choice(["x", "yy", "zzz"]) + str(rng.randrange(10)) for _ in range(n)]
+            return [rng.randrange(0, 100) for _ in range(n)]
+        for fr, dt in ((frame0, base), (frame1, fam)) + (((prior["frame"], base),) if prior else ()):
+            col = [f for f in fr if f[0] == "b"][0]
+            col[1], col[2] = dt, vals(len(col[2]))
+        [f for f in frame1 if f[0] == "b"][0][2][bad_rows[0]] = None
+        oe0 = {"b": "utf8", "s": "utf8"} if fam == "string" else None
+    return {"object_encoding0": oe0,"id": sid, "variant": v, "scheme": scheme, "partition_on": list(pon), "frame0": frame0, "offsets0": off0, "prior": prior,
             "compression0": rng.choice([None, None, "GZIP"]),
             "api": api, "kwargs": kw, "frame1": frame1, "bad_rows": bad_rows}
 
@@ -365,7 +410,7 @@ def create(path, sc):
     from fastparquet import write
     df0 = L.to_df(sc["frame0"])
     write(path, df0, file_scheme=sc["scheme"], partition_on=list(sc["partition_on"]), row_group_offsets=list(sc["offsets0"]),
-          object_encoding={"b": "int", "s": "utf8"}, has_nulls=False, write_index=False, compression=sc["compression0"])
+          object_encoding=sc.get("object_encoding0") or {"b": "int", "s": "utf8"}, has_nulls=False, write_index=False, compression=sc["compression0"])
     if sc.get("prior"):
         write(path, L.to_df(sc["prior"]["frame"]), file_scheme=sc["scheme"], partition_on=list(sc["partition_on"]),
               row_group_offsets=list(sc["prior"]["offsets"]), append=True, compression=sc["compression0"])
@@ -485,7 +530,21 @@ def run_scenario(arg):
             write(os.path.join(work, "other.parquet"), L.to_df(sc["kwargs"]["other"]), object_encoding={"b": "int", "s": "utf8"},
                   has_nulls=False, write_index=False)
         snap0 = dsfs.snapshot(root)
-        rec = L.PosRecorder(root, keep_data=False)
+        fault = {}
+        if sc["variant"]["kind"] == "io_fault":
+            # dry run on a copy: which write call is the first / a middle one / the new footer's thrift bytes, length, magic
+            dry = os.path.join(base, "d")
+            os.makedirs(dry)
+            shutil.copy(pristine, os.path.join(dry, "ds"))
+            rec0 = L.PosRecorder(dry)
+            with rec0:
+                write(os.path.join(dry, "ds"), L.to_df(sc["frame1"]), open_with=rec0.open_with, mkdirs=rec0.mkdirs, **sc["kwargs"])
+            widx = [k + 1 for k, kd in enumerate(rec0.kinds) if kd == "write"]
+            k = {"first_write": widx[0], "middle_write": widx[len(widx) // 2], "footer_thrift": widx[-3], "footer_length": widx[-2],
+                 "footer_magic": widx[-1]}[sc["variant"]["where"]]
+            fault = {"fail_at": k, "variant": sc["variant"]["fault_variant"]}
+            out["fault_call"] = [k, len(rec0.kinds)]
+        rec = L.PosRecorder(root, keep_data=False, **fault)
         raised = None
         with rec:
             try:
@@ -595,7 +654,7 @@ def run(ctx):
     if ctx.quick():
         by = {}
         for v in variants:
-            by.setdefault((v["state"], v["kind"], v.get("family"), v.get("oe")), []).append(v)
+            by.setdefault((v["state"], v["kind"], v.get("family"), v.get("oe"), v.get("where")), []).append(v)
         variants = [v for _, vs in sorted(by.items())
                     for v in (vs if vs[0]["kind"].startswith("read_") else rng.sample(vs, min(len(vs), 1 if vs[0].get("family") else (4 if vs[0]["expect"] == "late" else 2))))]
     else:
@@ -639,8 +698,12 @@ def run(ctx):
         if res.get("setup_fallback"):
             ctx.count("setup_fallback", res["setup_fallback"][:60])
         ctx.count("position", "%s/%s" % (v.get("pos"), v.get("rg")))
-        if v.get("family"):
+        if v.get("family") and v["kind"] == "na_nonnull":
+            ctx.count("missing_value_in_required_column", "%s/%s/%s" % (v["family"], v["pos"], v["rg"]))
+        elif v.get("family"):
             ctx.count("unsupported_family", "%s/%s/%s" % (v["family"], v["oe"], v["pos"]))
+        if v["kind"] == "io_fault":
+            ctx.count("io_fault", "%s/%s" % (v["where"], v["fault_variant"]))
         if v["kind"].startswith("read_"):
             ctx.count("read_shape", "%s/%s/grp=%s/pos=%s/%s/row_filter=%s" % (v["kind"], v.get("shape"), v.get("grp"), v.get("pos"), v.get("via"), v.get("row_filter")))
         ctx.count("outcome", "%s/%s/%s" % (v["expect"], "raised" if res["raised"] else "returned", res["read"]))
@@ -702,8 +765,14 @@ def run(ctx):
                 ctx.broken[-1]["trace"] = dsfs.trace_json(res["trace"], 100)
         elif kind == "multi_fail":
             model = [[bytes(c[0]).decode(), bytes(c[1]).decode()] for c in o[0] if bytes(c[0]) in (b"openw", b"close")] if isinstance(o, list) else o
-            ctx.correspondence("model call sequence multi_fail (open/close kinds and paths) = recorded calls of the real failed append", short,
-                               model, proj(res["trace"]))
+            # information (DESIGN 4.2): is the deterministic model's call sequence exactly what the code did?  (A failed append that e.g.
+            # rewrites the summary files with their unchanged content is inside the proved relation check_safe_trace - evaluated above on
+            # the recorded calls - and leaves the dataset as it was; the exact sequence is not an obligation.)
+            same = model == proj(res["trace"])
+            mf = ctx.extra.setdefault("multi_fail_model_sequence_vs_recorded", {"equal": 0, "different": 0, "examples": []})
+            mf["equal" if same else "different"] += 1
+            if not same and len(mf["examples"]) < 3:
+                mf["examples"].append({"case": short, "model": str(model)[:300], "recorded": str(proj(res["trace"]))[:300]})
             ctx.correspondence("model trace of multi_fail satisfies check_safe_trace", short, 1, o[1] if isinstance(o, list) else o)
         elif kind == "fops":
             ctx.correspondence("positional file model run_fops(recorded writes/truncates) = bytes on disk", short,
